@@ -254,6 +254,13 @@ class Module:
         self.name = name
 
 
+class DiagIndex:
+    """np.diag_indices_from(M): the index set of the diagonal of a square 2-D array"""
+
+    def __init__(self, n):
+        self.n = n
+
+
 class RangeV:
     def __init__(self, lo, hi, step=1):
         self.lo, self.hi, self.step = lo, hi, step
